@@ -152,20 +152,8 @@ func (w *World) Quiesce() error {
 	deadline := time.Now().Add(w.QuiesceTimeout)
 	w.mu.Lock()
 	defer w.mu.Unlock()
-	stop := make(chan struct{})
-	defer close(stop)
-	go func() { // wake the waiter periodically so that the deadline is honoured
-		t := time.NewTicker(50 * time.Millisecond)
-		defer t.Stop()
-		for {
-			select {
-			case <-stop:
-				return
-			case <-t.C:
-				w.cond.Broadcast()
-			}
-		}
-	}()
+	tm := time.AfterFunc(w.QuiesceTimeout+10*time.Millisecond, func() { w.mu.Lock(); w.cond.Broadcast(); w.mu.Unlock() })
+	defer tm.Stop()
 	for !w.quiescentLocked() {
 		if time.Now().After(deadline) {
 			return ErrHang
@@ -173,6 +161,17 @@ func (w *World) Quiesce() error {
 		w.cond.Wait()
 	}
 	return nil
+}
+
+// Shutdown closes every connection so that the goroutines serving them end.
+func (w *World) Shutdown() {
+	w.mu.Lock()
+	for _, c := range w.conns {
+		c.closed = true
+		c.stalled = false
+	}
+	w.cond.Broadcast()
+	w.mu.Unlock()
 }
 
 func (w *World) PanicCount() int {
@@ -300,8 +299,10 @@ func (c *Conn) Read(b []byte) (int, error) {
 		if len(b) == 0 {
 			return 0, nil
 		}
-		c.st = stIdle
-		w.cond.Broadcast()
+		if c.st != stIdle { // announce the transition once; waking the others on every loop would
+			c.st = stIdle // make two idle readers wake each other for ever
+			w.cond.Broadcast()
+		}
 		w.cond.Wait()
 	}
 }
